@@ -8,9 +8,17 @@
    a query on the near face becomes a query on the far face: equality then comes from the continuity
    of the multilinear interpolant across faces (interp2d_spec_any_cell / interp3d_spec_any_cell).
 
-   For the apparent-velocity kernels _vinterp2d / _vinterp3d (source mirrored too) the statement
-   is FALSE in general (see section 5): it holds when neither the query nor the source lies on a node
-   line of the mirrored axis, and refutation witnesses are given for the rest. *)
+   For the apparent-velocity kernels _vinterp2d / _vinterp3d (source mirrored too) the unrestricted
+   statement is FALSE (sections 5-7): the source-cell test compares searchsorted(side="right") indices,
+   and the zero-time test reads only the face nodes on a far face.  Proved instead:
+     * vinterp{2d,3d}_mirror_*_gen / *_off_nodes: equality for every input such that the query's
+       coordinate on the mirrored axis is not a node and the source-cell test on that axis agrees in
+       the two frames (in particular: source coordinate not a node either; or source on a node and
+       the query in neither adjacent cell).  Nothing is assumed about the other axes, the hull,
+       the times (zeros allowed), vzero, fval.
+     * *_refuted_*: concrete witnesses for the rest - query on an interior node line (7a, 7d),
+       source on a node line (7b), query on the far face next to a zero time (7c).  The three 2-D
+       witnesses were replayed on the Python implementation: same pairs of values. *)
 From Coq Require Import ZArith List Bool Reals Lra Lia Psatz Field.
 From FT.lib Require Import Num Arr NumArr ArrLemmas.
 From FT.gen Require Import Common Interp2d Interp3d Vinterp2d Vinterp3d.
@@ -916,6 +924,363 @@ Qed.
 
 End VMirror3Concrete.
 
+(* ================================================================== *)
+(* 7. the hypotheses are satisfiable; the unrestricted statements fail   *)
+(* ================================================================== *)
+Lemma axis3 (a b c : R) : a < b -> b < c -> axis (mkarr [3%Z] [a; b; c]) 3.
+Proof.
+  intros Hab Hbc. repeat split; try reflexivity; try lia.
+  intros i j Hij.
+  assert (C : ((i = 0 /\ j = 1) \/ (i = 0 /\ j = 2) \/ (i = 1 /\ j = 2))%Z) by lia.
+  destruct C as [[-> ->] | [[-> ->] | [-> ->]]]; unfold get; simpl; lra.
+Qed.
+
+(* nodes 0, 1, 2 on the mirrored axis; 0, 1 on the others *)
+Definition xw : arr R := mkarr [3%Z] [0; 1; 2].
+Definition yw : arr R := mkarr [2%Z] [0; 1].
+Lemma axis_xw : axis xw 3. Proof. apply axis3; lra. Qed.
+Lemma axis_yw : axis yw 2. Proof. apply axis2; lra. Qed.
+
+Lemma xw_nodes k : (0 <= k < 3)%Z -> get 0 xw [k] = 0 \/ get 0 xw [k] = 1 \/ get 0 xw [k] = 2.
+Proof.
+  intros Hk. assert (C : (k = 0 \/ k = 1 \/ k = 2)%Z) by lia.
+  destruct C as [-> | [-> | ->]]; [left | right; left | right; right]; reflexivity.
+Qed.
+Lemma yw_nodes k : (0 <= k < 2)%Z -> get 0 yw [k] = 0 \/ get 0 yw [k] = 1.
+Proof.
+  intros Hk. assert (C : (k = 0 \/ k = 1)%Z) by lia.
+  destruct C as [-> | ->]; [left | right]; reflexivity.
+Qed.
+Lemma off_xw q : q <> 0 -> q <> 1 -> q <> 2 -> off_nodes xw 3 q.
+Proof. intros H0 H1 H2 k Hk. destruct (xw_nodes k Hk) as [E | [E | E]]; rewrite E; auto. Qed.
+
+(* the hypotheses of the restricted theorems hold for an in-hull query and source *)
+Example off_nodes_example :
+  get 0 xw [0%Z] <= 1 / 2 <= get 0 xw [(3 - 1)%Z] /\ off_nodes xw 3 (1 / 2) /\ off_nodes xw 3 (3 / 2) /\
+  src_agrees xw (1 / 2) (3 / 2).
+Proof.
+  assert (O1 : off_nodes xw 3 (1 / 2)) by (apply off_xw; lra).
+  assert (O2 : off_nodes xw 3 (3 / 2)) by (apply off_xw; lra).
+  repeat split; try assumption; try (unfold get; simpl; lra);
+  apply (src_agrees_off xw 3 _ _ axis_xw O1 O2).
+Qed.
+
+(* searchsorted on the witness axes *)
+Lemma ssr_xw_half : searchsorted_right xw (1 / 2) = 1%Z.
+Proof.
+  pose proof (ssrR_cell xw 3 (1 / 2) 0 axis_xw ltac:(lia)) as C.
+  assert (H : get 0 xw [0%Z] <= 1 / 2 < get 0 xw [(0 + 1)%Z]) by (unfold get; simpl; lra).
+  specialize (C H). lia.
+Qed.
+Lemma ssr_xw_3half : searchsorted_right xw (3 / 2) = 2%Z.
+Proof.
+  pose proof (ssrR_cell xw 3 (3 / 2) 1 axis_xw ltac:(lia)) as C.
+  assert (H : get 0 xw [1%Z] <= 3 / 2 < get 0 xw [(1 + 1)%Z]) by (unfold get; simpl; lra).
+  specialize (C H). lia.
+Qed.
+Lemma ssr_xw_1 : searchsorted_right xw 1 = 2%Z.
+Proof. exact (ssrR_node xw 3 1 axis_xw ltac:(lia)). Qed.
+Lemma ssr_xw_2 : searchsorted_right xw 2 = 3%Z.
+Proof. exact (ssrR_node xw 3 2 axis_xw ltac:(lia)). Qed.
+Lemma ssr_yw_half : searchsorted_right yw (1 / 2) = 1%Z.
+Proof.
+  pose proof (ssrR_cell yw 2 (1 / 2) 0 axis_yw ltac:(lia)) as C.
+  assert (H : get 0 yw [0%Z] <= 1 / 2 < get 0 yw [(0 + 1)%Z]) by (unfold get; simpl; lra).
+  specialize (C H). lia.
+Qed.
+Lemma ssr_yw_0 : searchsorted_right yw 0 = 1%Z.
+Proof. exact (ssrR_node yw 2 0 axis_yw ltac:(lia)). Qed.
+(* ... and on the mirrored witness axis *)
+Lemma ssr_xw'_half : searchsorted_right (mirror_axis xw) (- (1 / 2)) = 2%Z.
+Proof. rewrite (ssr_mirror_off xw 3 (1 / 2) axis_xw) by (apply off_xw; lra). rewrite ssr_xw_half. reflexivity. Qed.
+Lemma ssr_xw'_3half : searchsorted_right (mirror_axis xw) (- (3 / 2)) = 1%Z.
+Proof. rewrite (ssr_mirror_off xw 3 (3 / 2) axis_xw) by (apply off_xw; lra). rewrite ssr_xw_3half. reflexivity. Qed.
+Lemma ssr_xw'_1 : searchsorted_right (mirror_axis xw) (- (1)) = 2%Z.
+Proof. exact (ssr_mirror_node xw 3 1 axis_xw ltac:(lia)). Qed.
+Lemma ssr_xw'_2 : searchsorted_right (mirror_axis xw) (- (2)) = 1%Z.
+Proof. exact (ssr_mirror_node xw 3 2 axis_xw ltac:(lia)). Qed.
+
+Lemma hull_xw q : 0 <= q <= 2 -> get 0 xw [0%Z] <= q <= get 0 xw [(3 - 1)%Z].
+Proof. intros H. unfold get; simpl; lra. Qed.
+Lemma hull_yw q : 0 <= q <= 1 -> get 0 yw [0%Z] <= q <= get 0 yw [(2 - 1)%Z].
+Proof. intros H. unfold get; simpl; lra. Qed.
+
+(* ---- 7a. the query ON an interior node line of the mirrored axis, the source off the node lines.
+   All times 1, vzero = 0.  Query (1, 0), source (3/2, 1/2).
+   Original frame: the query has the searchsorted indices of the source -> vzero * distance = 0.
+   Mirrored frame: the query (-1, 0) falls in the cell LEFT of the node line, the source (-3/2, 1/2)
+   too ... but searchsorted(side="right") puts the query in the cell to the right of its node line:
+   not the source's cell -> the node value 1. *)
+Definition vw1 : arr R := mkarr [3%Z; 2%Z] [1; 1; 1; 1; 1; 1].
+Lemma vw1_get k l : (0 <= k < 3)%Z -> (0 <= l < 2)%Z -> get 0 vw1 [k; l] = 1.
+Proof.
+  intros Hk Hl. assert (Ck : (k = 0 \/ k = 1 \/ k = 2)%Z) by lia. assert (Cl : (l = 0 \/ l = 1)%Z) by lia.
+  destruct Ck as [-> | [-> | ->]]; destruct Cl as [-> | ->]; reflexivity.
+Qed.
+
+Theorem vinterp2d_mirror_x_refuted_query_on_node :
+  off_nodes xw 3 (3 / 2) /\
+  u_vinterp2d_v xw yw vw1 1 0 (3 / 2) (1 / 2) 0 0 = 0 /\
+  u_vinterp2d_v (mirror_axis xw) yw (reverse_rows vw1) (- (1)) 0 (- (3 / 2)) (1 / 2) 0 0 = 1.
+Proof.
+  pose proof axis_xw as Ax. pose proof axis_yw as Ay. pose proof (axis_mirror xw 3 Ax) as Ax'.
+  assert (Sv : shape vw1 = [3; 2]%Z) by reflexivity.
+  destruct (reverse_rows_spec vw1 3 2 ltac:(lia) ltac:(lia) Sv) as (_ & Sv' & Gv').
+  split; [apply off_xw; lra|]. split.
+  - rewrite (vinterp2d_source_cell xw yw vw1 3 2 Ax Ay 1 0 (3 / 2) (1 / 2) 0 0
+               (hull_xw 1 ltac:(lra)) (hull_yw 0 ltac:(lra))); [ring|].
+    rewrite ssr_xw_3half, ssr_xw_1, ssr_yw_half, ssr_yw_0. split; reflexivity.
+  - pose proof (vinterp2d_node (mirror_axis xw) yw (reverse_rows vw1) 3 2 Ax' Ay Sv' 1 0
+                  (- (3 / 2)) (1 / 2) 0 0 ltac:(lia) ltac:(lia)) as Hn.
+    cbv zeta in Hn. rewrite (mirror_get xw 3 1 1 Ax) in Hn by lia.
+    change (get 0 xw [1%Z]) with 1 in Hn. change (get 0 yw [0%Z]) with 0 in Hn.
+    rewrite Hn.
+    + rewrite Gv' by lia. apply vw1_get; lia.
+    + rewrite ssr_xw'_3half, ssr_xw'_1. intros [Ea _]. discriminate Ea.
+    + intros k' l' Uk Ul.
+      destruct (hull_mirror xw 3 1 Ax (hull_xw 1 ltac:(lra))) as [M0 M1].
+      apply (used_range (mirror_axis xw) 3 (- (1)) Ax' M0 M1) in Uk.
+      destruct (hull_yw 0 ltac:(lra)) as [Y0 Y1].
+      apply (used_range yw 2 0 Ay Y0 Y1) in Ul.
+      rewrite Gv' by lia. rewrite vw1_get by lia. lra.
+Qed.
+
+Corollary vinterp2d_mirror_x_refuted :
+  exists (x y v : arr R) (nx ny : Z) (xq yq xsrc ysrc vzero fval : R),
+    axis x nx /\ axis y ny /\ shape v = [nx; ny] /\ wf v /\
+    u_vinterp2d_v (mirror_axis x) y (reverse_rows v) (- xq) yq (- xsrc) ysrc vzero fval <>
+    u_vinterp2d_v x y v xq yq xsrc ysrc vzero fval.
+Proof.
+  exists xw, yw, vw1, 3%Z, 2%Z, 1, 0, (3 / 2), (1 / 2), 0, 0.
+  destruct vinterp2d_mirror_x_refuted_query_on_node as (_ & E1 & E2).
+  split; [apply axis_xw|]. split; [apply axis_yw|]. split; [reflexivity|].
+  split; [split; [reflexivity | repeat constructor; lia]|].
+  rewrite E1, E2. lra.
+Qed.
+
+(* ---- 7b. the SOURCE on a node line of the mirrored axis, the query off the node lines.
+   Times = distance to the source (homogeneous medium, slowness 1), vzero = 0.
+   Source (1, 1/2), query (3/2, 1/2).
+   Original frame: the source belongs to the cell on its right, where the query is -> 0.
+   Mirrored frame: the source (-1, 1/2) again belongs to the cell on its right, the query (-3/2, 1/2)
+   is on its left -> interpolation, exact in a homogeneous medium: the distance 1/2. *)
+Definition vw2 : arr R := tab2 3 2 (fun i j => dist2d 1 (1 / 2) (get 0 xw [i]) (get 0 yw [j])).
+
+Theorem vinterp2d_mirror_x_refuted_source_on_node :
+  off_nodes xw 3 (3 / 2) /\
+  u_vinterp2d_v xw yw vw2 (3 / 2) (1 / 2) 1 (1 / 2) 0 0 = 0 /\
+  u_vinterp2d_v (mirror_axis xw) yw (reverse_rows vw2) (- (3 / 2)) (1 / 2) (- (1)) (1 / 2) 0 0 = 1 / 2.
+Proof.
+  pose proof axis_xw as Ax. pose proof axis_yw as Ay. pose proof (axis_mirror xw 3 Ax) as Ax'.
+  assert (Sv : shape vw2 = [3; 2]%Z) by reflexivity.
+  destruct (reverse_rows_spec vw2 3 2 ltac:(lia) ltac:(lia) Sv) as (_ & Sv' & Gv').
+  split; [apply off_xw; lra|]. split.
+  - rewrite (vinterp2d_source_cell xw yw vw2 3 2 Ax Ay (3 / 2) (1 / 2) 1 (1 / 2) 0 0
+               (hull_xw (3 / 2) ltac:(lra)) (hull_yw (1 / 2) ltac:(lra))); [ring|].
+    rewrite ssr_xw_3half, ssr_xw_1. split; reflexivity.
+  - destruct (hull_mirror xw 3 (3 / 2) Ax (hull_xw (3 / 2) ltac:(lra))) as [M0 M1].
+    destruct (hull_yw (1 / 2) ltac:(lra)) as [Y0 Y1].
+    rewrite (vinterp2d_homogeneous_exact (mirror_axis xw) yw (reverse_rows vw2) 3 2 Ax' Ay Sv'
+               (- (3 / 2)) (1 / 2) (- (1)) (1 / 2) 0 0 (conj M0 M1) (conj Y0 Y1) 1).
+    + rewrite (sqrt_of_square _ (1 / 2)); [lra | lra | field].
+    + rewrite ssr_xw'_3half, ssr_xw'_1. intros [Ea _]. discriminate Ea.
+    + lra.
+    + intros k l Uk Ul.
+      apply (used_range (mirror_axis xw) 3 (- (3 / 2)) Ax' M0 M1) in Uk.
+      apply (used_range yw 2 (1 / 2) Ay Y0 Y1) in Ul.
+      rewrite Gv' by lia. unfold vw2. rewrite get_tab2 by lia.
+      rewrite (mirror_get xw 3 k (3 - 1 - k) Ax) by lia.
+      rewrite !dist2d_opp_x.
+      split; [|ring].
+      pose proof (dist2d_nonneg 1 (1 / 2) (get 0 xw [(3 - 1 - k)%Z]) (get 0 yw [l])) as P.
+      destruct (Req_dec (dist2d 1 (1 / 2) (get 0 xw [(3 - 1 - k)%Z]) (get 0 yw [l])) 0) as [Z0|NZ]; [|lra].
+      apply dist2d_zero in Z0 as [_ Z0]. destruct (yw_nodes l Ul) as [E | E]; rewrite E in Z0; lra.
+Qed.
+
+(* ---- 7c. the query on the FAR face of the mirrored axis, a zero time on the neighbouring node line,
+   the source far away (never the source's cell).  Times 1 except v[1,0] = 0, vzero = 0.
+   Query (2, 0), source (1/2, 1/2).
+   Original frame: far-face branch, only the nodes of the face are read -> the node value 1.
+   Mirrored frame: the query (-2, 0) is on the NEAR face, the kernel reads the whole cell, finds the
+   zero time -> vzero * distance = 0. *)
+Definition vw3 : arr R := mkarr [3%Z; 2%Z] [1; 1; 0; 1; 1; 1].
+
+Theorem vinterp2d_mirror_x_refuted_far_face_zero_time :
+  off_nodes xw 3 (1 / 2) /\
+  u_vinterp2d_v xw yw vw3 2 0 (1 / 2) (1 / 2) 0 0 = 1 /\
+  u_vinterp2d_v (mirror_axis xw) yw (reverse_rows vw3) (- (2)) 0 (- (1 / 2)) (1 / 2) 0 0 = 0.
+Proof.
+  pose proof axis_xw as Ax. pose proof axis_yw as Ay. pose proof (axis_mirror xw 3 Ax) as Ax'.
+  assert (Sv : shape vw3 = [3; 2]%Z) by reflexivity.
+  destruct (reverse_rows_spec vw3 3 2 ltac:(lia) ltac:(lia) Sv) as (_ & Sv' & Gv').
+  split; [apply off_xw; lra|]. split.
+  - pose proof (vinterp2d_node xw yw vw3 3 2 Ax Ay Sv 2 0 (1 / 2) (1 / 2) 0 0 ltac:(lia) ltac:(lia)) as Hn.
+    cbv zeta in Hn.
+    assert (Uk : forall k', used xw 3 (get 0 xw [2%Z]) k' -> k' = 2%Z).
+    { intros k' U. unfold used, far in U.
+      rewrite (cell_node xw 3 2 Ax ltac:(lia)), (ssrR_node xw 3 2 Ax ltac:(lia)) in U.
+      destruct U as [-> | [_ F]]; [reflexivity | discriminate F]. }
+    change (get 0 yw [0%Z]) with 0 in Hn.
+    assert (Hn' := fun NS NZ => Hn NS NZ). clear Hn.
+    change (get 0 xw [2%Z]) with 2 in Hn' at 2 3. 
+    rewrite Hn'; [reflexivity | |].
+    + change (get 0 xw [2%Z]) with 2. rewrite ssr_xw_half, ssr_xw_2. intros [Ea _]. discriminate Ea.
+    + intros k' l' U Ul. apply Uk in U. subst k'.
+      destruct (hull_yw 0 ltac:(lra)) as [Y0 Y1]. apply (used_range yw 2 0 Ay Y0 Y1) in Ul.
+      assert (Cl : (l' = 0 \/ l' = 1)%Z) by lia. destruct Cl as [-> | ->]; unfold get; simpl; lra.
+  - destruct (hull_mirror xw 3 2 Ax (hull_xw 2 ltac:(lra))) as [M0 M1].
+    destruct (hull_yw 0 ltac:(lra)) as [Y0 Y1].
+    rewrite (vinterp2d_zero_corner (mirror_axis xw) yw (reverse_rows vw3) 3 2 Ax' Ay Sv'
+               (- (2)) 0 (- (1 / 2)) (1 / 2) 0 0 (conj M0 M1) (conj Y0 Y1)); [ring | |].
+    + rewrite ssr_xw'_half, ssr_xw'_2. intros [Ea _]. discriminate Ea.
+    + exists 1%Z, 0%Z. split; [|split].
+      * left. unfold cell. rewrite ssr_xw'_2. reflexivity.
+      * exact (used_node yw 2 0 Ay ltac:(lia)).
+      * rewrite Gv' by lia. reflexivity.
+Qed.
+
+(* ---- 7d. the same mechanism as 7a for the second axis and for the three axes of _vinterp3d:
+   all times 1, vzero = 0, the mirrored axis has nodes 0 1 2 and the others 0 1; the query is the node
+   with coordinate 1 on the mirrored axis and 0 on the others, the source has coordinate 3/2 on the
+   mirrored axis and 1/2 on the others.  Original frame: source's cell -> 0.  Mirrored frame: 1. *)
+Definition ones2 (a b : Z) : arr R := full [a; b] 1.
+Definition ones3 (a b c : Z) : arr R := full [a; b; c] 1.
+Lemma ones2_get a b i j : (0 <= i < a)%Z -> (0 <= j < b)%Z -> get 0 (ones2 a b) [i; j] = 1.
+Proof.
+  intros Hi Hj. apply get_full. cbn [inb_sh].
+  repeat (apply andb_true_intro; split); try apply Z.leb_le; try apply Z.ltb_lt; try lia; reflexivity.
+Qed.
+Lemma ones3_get a b c i j k : (0 <= i < a)%Z -> (0 <= j < b)%Z -> (0 <= k < c)%Z ->
+  get 0 (ones3 a b c) [i; j; k] = 1.
+Proof.
+  intros Hi Hj Hk. apply get_full. cbn [inb_sh].
+  repeat (apply andb_true_intro; split); try apply Z.leb_le; try apply Z.ltb_lt; try lia; reflexivity.
+Qed.
+
+Theorem vinterp2d_mirror_y_refuted_query_on_node :
+  off_nodes xw 3 (3 / 2) /\
+  u_vinterp2d_v yw xw (ones2 2 3) 0 1 (1 / 2) (3 / 2) 0 0 = 0 /\
+  u_vinterp2d_v yw (mirror_axis xw) (reverse_cols (ones2 2 3)) 0 (- (1)) (1 / 2) (- (3 / 2)) 0 0 = 1.
+Proof.
+  pose proof axis_xw as Ax. pose proof axis_yw as Ay. pose proof (axis_mirror xw 3 Ax) as Ax'.
+  assert (Sv : shape (ones2 2 3) = [2; 3]%Z) by reflexivity.
+  destruct (reverse_cols_spec (ones2 2 3) 2 3 ltac:(lia) ltac:(lia) Sv) as (_ & Sv' & Gv').
+  split; [apply off_xw; lra|]. split.
+  - rewrite (vinterp2d_source_cell yw xw (ones2 2 3) 2 3 Ay Ax 0 1 (1 / 2) (3 / 2) 0 0
+               (hull_yw 0 ltac:(lra)) (hull_xw 1 ltac:(lra))); [ring|].
+    rewrite ssr_xw_3half, ssr_xw_1, ssr_yw_half, ssr_yw_0. split; reflexivity.
+  - pose proof (vinterp2d_node yw (mirror_axis xw) (reverse_cols (ones2 2 3)) 2 3 Ay Ax' Sv' 0 1
+                  (1 / 2) (- (3 / 2)) 0 0 ltac:(lia) ltac:(lia)) as Hn.
+    cbv zeta in Hn. rewrite (mirror_get xw 3 1 1 Ax) in Hn by lia.
+    change (get 0 xw [1%Z]) with 1 in Hn. change (get 0 yw [0%Z]) with 0 in Hn.
+    rewrite Hn.
+    + rewrite Gv' by lia. apply ones2_get; lia.
+    + rewrite ssr_xw'_3half, ssr_xw'_1. intros [_ Ea]. discriminate Ea.
+    + intros k' l' Uk Ul.
+      destruct (hull_mirror xw 3 1 Ax (hull_xw 1 ltac:(lra))) as [M0 M1].
+      destruct (hull_yw 0 ltac:(lra)) as [Y0 Y1].
+      apply (used_range yw 2 0 Ay Y0 Y1) in Uk.
+      apply (used_range (mirror_axis xw) 3 (- (1)) Ax' M0 M1) in Ul.
+      rewrite Gv' by lia. rewrite ones2_get by lia. lra.
+Qed.
+
+Theorem vinterp3d_mirror_x_refuted_query_on_node :
+  off_nodes xw 3 (3 / 2) /\
+  u_vinterp3d_v xw yw yw (ones3 3 2 2) 1 0 0 (3 / 2) (1 / 2) (1 / 2) 0 0 = 0 /\
+  u_vinterp3d_v (mirror_axis xw) yw yw (reverse3_x (ones3 3 2 2)) (- (1)) 0 0 (- (3 / 2)) (1 / 2) (1 / 2) 0 0 = 1.
+Proof.
+  pose proof axis_xw as Ax. pose proof axis_yw as Ay. pose proof (axis_mirror xw 3 Ax) as Ax'.
+  assert (Sv : shape (ones3 3 2 2) = [3; 2; 2]%Z) by reflexivity.
+  destruct (reverse3_x_spec (ones3 3 2 2) 3 2 2 ltac:(lia) ltac:(lia) ltac:(lia) Sv) as (_ & Sv' & Gv').
+  split; [apply off_xw; lra|]. split.
+  - rewrite (vinterp3d_source_cell xw yw yw (ones3 3 2 2) 3 2 2 Ax Ay Ay
+               1 0 0 (3 / 2) (1 / 2) (1 / 2) 0 0 (hull_xw 1 ltac:(lra)) (hull_yw 0 ltac:(lra)) (hull_yw 0 ltac:(lra))); [ring|].
+    rewrite ssr_xw_3half, ssr_xw_1, ssr_yw_half, ssr_yw_0. repeat split; reflexivity.
+  - pose proof (vinterp3d_node (mirror_axis xw) yw yw (reverse3_x (ones3 3 2 2)) 3 2 2 Ax' Ay Ay Sv'
+                  1 0 0 (- (3 / 2)) (1 / 2) (1 / 2) 0 0 ltac:(lia) ltac:(lia) ltac:(lia)) as Hn.
+    cbv zeta in Hn. rewrite (mirror_get xw 3 1 1 Ax) in Hn by lia.
+    change (get 0 xw [1%Z]) with 1 in Hn. change (get 0 yw [0%Z]) with 0 in Hn.
+    rewrite Hn.
+    + rewrite Gv' by lia. apply ones3_get; lia.
+    + rewrite ssr_xw'_3half, ssr_xw'_1. intros [Ea _]. discriminate Ea.
+    + intros k' l' m' Uk Ul Um.
+      destruct (hull_mirror xw 3 1 Ax (hull_xw 1 ltac:(lra))) as [M0 M1].
+      destruct (hull_yw 0 ltac:(lra)) as [Y0 Y1].
+      apply (used_range (mirror_axis xw) 3 (- (1)) Ax' M0 M1) in Uk.
+      apply (used_range yw 2 0 Ay Y0 Y1) in Ul.
+      apply (used_range yw 2 0 Ay Y0 Y1) in Um.
+      rewrite Gv' by lia. rewrite ones3_get by lia. lra.
+Qed.
+
+Theorem vinterp3d_mirror_y_refuted_query_on_node :
+  off_nodes xw 3 (3 / 2) /\
+  u_vinterp3d_v yw xw yw (ones3 2 3 2) 0 1 0 (1 / 2) (3 / 2) (1 / 2) 0 0 = 0 /\
+  u_vinterp3d_v yw (mirror_axis xw) yw (reverse3_y (ones3 2 3 2)) 0 (- (1)) 0 (1 / 2) (- (3 / 2)) (1 / 2) 0 0 = 1.
+Proof.
+  pose proof axis_xw as Ax. pose proof axis_yw as Ay. pose proof (axis_mirror xw 3 Ax) as Ax'.
+  assert (Sv : shape (ones3 2 3 2) = [2; 3; 2]%Z) by reflexivity.
+  destruct (reverse3_y_spec (ones3 2 3 2) 2 3 2 ltac:(lia) ltac:(lia) ltac:(lia) Sv) as (_ & Sv' & Gv').
+  split; [apply off_xw; lra|]. split.
+  - rewrite (vinterp3d_source_cell yw xw yw (ones3 2 3 2) 2 3 2 Ay Ax Ay
+               0 1 0 (1 / 2) (3 / 2) (1 / 2) 0 0 (hull_yw 0 ltac:(lra)) (hull_xw 1 ltac:(lra)) (hull_yw 0 ltac:(lra))); [ring|].
+    rewrite ssr_xw_3half, ssr_xw_1, ssr_yw_half, ssr_yw_0. repeat split; reflexivity.
+  - pose proof (vinterp3d_node yw (mirror_axis xw) yw (reverse3_y (ones3 2 3 2)) 2 3 2 Ay Ax' Ay Sv'
+                  0 1 0 (1 / 2) (- (3 / 2)) (1 / 2) 0 0 ltac:(lia) ltac:(lia) ltac:(lia)) as Hn.
+    cbv zeta in Hn. rewrite (mirror_get xw 3 1 1 Ax) in Hn by lia.
+    change (get 0 xw [1%Z]) with 1 in Hn. change (get 0 yw [0%Z]) with 0 in Hn.
+    rewrite Hn.
+    + rewrite Gv' by lia. apply ones3_get; lia.
+    + rewrite ssr_xw'_3half, ssr_xw'_1. intros (_ & Ea & _). discriminate Ea.
+    + intros k' l' m' Uk Ul Um.
+      destruct (hull_mirror xw 3 1 Ax (hull_xw 1 ltac:(lra))) as [M0 M1].
+      destruct (hull_yw 0 ltac:(lra)) as [Y0 Y1].
+      apply (used_range yw 2 0 Ay Y0 Y1) in Uk.
+      apply (used_range (mirror_axis xw) 3 (- (1)) Ax' M0 M1) in Ul.
+      apply (used_range yw 2 0 Ay Y0 Y1) in Um.
+      rewrite Gv' by lia. rewrite ones3_get by lia. lra.
+Qed.
+
+Theorem vinterp3d_mirror_z_refuted_query_on_node :
+  off_nodes xw 3 (3 / 2) /\
+  u_vinterp3d_v yw yw xw (ones3 2 2 3) 0 0 1 (1 / 2) (1 / 2) (3 / 2) 0 0 = 0 /\
+  u_vinterp3d_v yw yw (mirror_axis xw) (reverse3_z (ones3 2 2 3)) 0 0 (- (1)) (1 / 2) (1 / 2) (- (3 / 2)) 0 0 = 1.
+Proof.
+  pose proof axis_xw as Ax. pose proof axis_yw as Ay. pose proof (axis_mirror xw 3 Ax) as Ax'.
+  assert (Sv : shape (ones3 2 2 3) = [2; 2; 3]%Z) by reflexivity.
+  destruct (reverse3_z_spec (ones3 2 2 3) 2 2 3 ltac:(lia) ltac:(lia) ltac:(lia) Sv) as (_ & Sv' & Gv').
+  split; [apply off_xw; lra|]. split.
+  - rewrite (vinterp3d_source_cell yw yw xw (ones3 2 2 3) 2 2 3 Ay Ay Ax
+               0 0 1 (1 / 2) (1 / 2) (3 / 2) 0 0 (hull_yw 0 ltac:(lra)) (hull_yw 0 ltac:(lra)) (hull_xw 1 ltac:(lra))); [ring|].
+    rewrite ssr_xw_3half, ssr_xw_1, ssr_yw_half, ssr_yw_0. repeat split; reflexivity.
+  - pose proof (vinterp3d_node yw yw (mirror_axis xw) (reverse3_z (ones3 2 2 3)) 2 2 3 Ay Ay Ax' Sv'
+                  0 0 1 (1 / 2) (1 / 2) (- (3 / 2)) 0 0 ltac:(lia) ltac:(lia) ltac:(lia)) as Hn.
+    cbv zeta in Hn. rewrite (mirror_get xw 3 1 1 Ax) in Hn by lia.
+    change (get 0 xw [1%Z]) with 1 in Hn. change (get 0 yw [0%Z]) with 0 in Hn.
+    rewrite Hn.
+    + rewrite Gv' by lia. apply ones3_get; lia.
+    + rewrite ssr_xw'_3half, ssr_xw'_1. intros (_ & _ & Ea). discriminate Ea.
+    + intros k' l' m' Uk Ul Um.
+      destruct (hull_mirror xw 3 1 Ax (hull_xw 1 ltac:(lra))) as [M0 M1].
+      destruct (hull_yw 0 ltac:(lra)) as [Y0 Y1].
+      apply (used_range yw 2 0 Ay Y0 Y1) in Uk.
+      apply (used_range yw 2 0 Ay Y0 Y1) in Ul.
+      apply (used_range (mirror_axis xw) 3 (- (1)) Ax' M0 M1) in Um.
+      rewrite Gv' by lia. rewrite ones3_get by lia. lra.
+Qed.
+
+(* ---- 7e. a source ON a node line is harmless when the query is in neither adjacent cell *)
+Theorem vinterp2d_mirror_x_source_on_node (x y v : arr R) (nx ny k : Z) (xq yq ysrc vzero fval : R) :
+  axis x nx -> axis y ny -> shape v = [nx; ny] -> off_nodes x nx xq -> (0 <= k < nx)%Z ->
+  searchsorted_right x xq <> k -> searchsorted_right x xq <> (k + 1)%Z ->
+  u_vinterp2d_v (mirror_axis x) y (reverse_rows v) (- xq) yq (- get 0 x [k]) ysrc vzero fval =
+  u_vinterp2d_v x y v xq yq (get 0 x [k]) ysrc vzero fval.
+Proof.
+  intros Ax Ay Sv Oq Hk N1 N2. pose proof (axis_n _ _ Ax). pose proof (axis_n _ _ Ay).
+  apply (vinterp2d_mirror_x_gen x y v _ nx ny); auto.
+  - apply reverse_rows_spec; auto; lia.
+  - apply (src_agrees_node x nx); assumption.
+Qed.
+
 Print Assumptions interp2d_mirror_x.
 Print Assumptions interp2d_mirror_y.
 Print Assumptions interp3d_mirror_x.
@@ -931,3 +1296,12 @@ Print Assumptions vinterp3d_mirror_z_gen.
 Print Assumptions vinterp3d_mirror_x_off_nodes.
 Print Assumptions vinterp3d_mirror_y_off_nodes.
 Print Assumptions vinterp3d_mirror_z_off_nodes.
+Print Assumptions vinterp2d_mirror_x_refuted_query_on_node.
+Print Assumptions vinterp2d_mirror_x_refuted.
+Print Assumptions vinterp2d_mirror_x_refuted_source_on_node.
+Print Assumptions vinterp2d_mirror_x_refuted_far_face_zero_time.
+Print Assumptions vinterp2d_mirror_y_refuted_query_on_node.
+Print Assumptions vinterp3d_mirror_x_refuted_query_on_node.
+Print Assumptions vinterp3d_mirror_y_refuted_query_on_node.
+Print Assumptions vinterp3d_mirror_z_refuted_query_on_node.
+Print Assumptions vinterp2d_mirror_x_source_on_node.
